@@ -249,7 +249,9 @@ def c11(tier):
     bytype = {}
     for o in obs:
         bytype[o["t"]] = bytype.get(o["t"], 0) + 1
-    cov = {"evaluations": len(obs), "distinct_nontrivial": len(set((o["t"], tuple(o["s"])) for o in obs)),
+    extra = {}
+    store_object_check(rep, extra, tier)
+    cov = {"store_transitions_validated": extra.get("store_transitions_validated", 0), "evaluations": len(obs), "distinct_nontrivial": len(set((o["t"], tuple(o["s"])) for o in obs)),
            "rule": "per input type: every text up to length %d over an adversarial alphabet (digits, signs, point, exponent, underscore, space, NBSP, n a i f, a non-ASCII digit), hand-picked corner cases "
                    "(nan/inf/overflow/underscores/unicode/near-miss names/8-10 digit SSNs) and seeded longer ones, supplied by set(), by file and through prompt_input; plus the not-supplied case" % (3 if tier == "quick" else 4),
            "samples": [{k: v for k, v in obs[77].items() if k in ("t", "outcome", "vtype", "via")}, "".join(chr(c) for c in obs[77]["s"])],
@@ -257,3 +259,112 @@ def c11(tier):
            "explanation": "TLC classifies every text with Lex.tla (must / may / reject + denotation) and evaluates InputGate.tla on the real outcome"}
     return rep, "exploration", cov, ["correct rounding of binary floating point is not decided: numeric equality at cent precision for plain decimals with at most two fraction digits",
                                      "text containing '%' (configparser interpolation error) is outside the explored alphabet"]
+
+
+# ---------------------------------------------------------------------------------------------
+# InputStore as an object: every transition of the real object's reachable graph against StoreTrace.tla
+
+class StoreDriver(object):
+    NAMES = ["t.x", "t.y"]
+
+    def __init__(self, work):
+        from habutax import inputs as I
+
+        class FakeForm(object):
+            def name(self):
+                return "t"
+        self.I = I
+        self.specs = {}
+        for n in self.NAMES:
+            i = I.IntegerInput(n.split(".")[1])
+            i.__form_init__(FakeForm())
+            self.specs[n] = i
+        self.store = I.InputStore(configparser.ConfigParser(), dict(self.specs))
+        self.work = work
+
+    def apply(self, op):
+        I, s = self.I, self.store
+        k = op.get("k")
+        if op["op"] == "get":
+            try:
+                return str(s[k])
+            except I.MissingInputSpecification:
+                return "nospec"
+            except I.MissingInput:
+                return "missing"
+            except I.InvalidInput:
+                return "invalid"
+        if op["op"] == "set":
+            s[k] = op["t"]
+            return "None"
+        if op["op"] == "del":
+            try:
+                del s[k]
+                return "None"
+            except Exception:      # noqa
+                return "error"
+        if op["op"] == "has":
+            return str(k in s)
+        if op["op"] == "reload":
+            path = os.path.join(self.work, "store.ini")
+            s.write(path)
+            self.store = I.InputStore(path, dict(self.specs))
+            return "None"
+        raise ValueError(op)
+
+    def state(self):
+        c = self.store.config
+        return {"%s.%s" % (sec, o): c.get(sec, o, raw=True) for sec in c.sections() for o in c[sec]}
+
+
+def store_graph(work, max_ops):
+    names = StoreDriver.NAMES
+    ops = []
+    for n in names:
+        ops += [{"op": "get", "k": n}, {"op": "has", "k": n}, {"op": "del", "k": n}]
+        ops += [{"op": "set", "k": n, "t": t} for t in ("0", "1", "bad")]
+    ops.append({"op": "reload"})
+    seen = {"{}": []}
+    frontier = [[]]
+    trans = []
+    while frontier:
+        nxt = []
+        for hist in frontier:
+            if len(hist) >= max_ops:
+                continue
+            for op in ops:
+                d = StoreDriver(work)
+                for h in hist:
+                    d.apply(h)
+                pre = d.state()
+                ret = d.apply(op)
+                post = d.state()
+                trans.append({"pre": pre, "op": op, "post": post, "ret": ret, "specs": names})
+                # the history matters (a cache would): keep histories distinct up to the bound, but prune pure observers
+                if op["op"] in ("set", "del", "reload", "get"):
+                    key = json.dumps([post, [h for h in (hist + [op])][-3:]], sort_keys=True)
+                    if key not in seen:
+                        seen[key] = 1
+                        nxt.append(hist + [op])
+        frontier = nxt
+    return trans
+
+
+def store_object_check(rep, cov, tier):
+    work = common.mkwork()
+    try:
+        trans = store_graph(work, 4 if tier == "quick" else 5)
+        path = os.path.join(work, "store.json")
+        json.dump({"trans": trans}, open(path, "w"))
+        cfgp = os.path.join(work, "s.cfg")
+        open(cfgp, "w").write("SPECIFICATION VSpec\nCHECK_DEADLOCK FALSE\n")
+        res = common.run_tlc(os.path.join(common.SPEC, "StoreTrace.tla"), cfgp, cwd=work, workers=1, env={"HV_STORE_FILE": path}, timeout=1800, heap="6g")
+    finally:
+        common.rmwork(work)
+    if res.rc != 0 or res.distinct != len(trans) + 1:
+        raise common.MachineryError("StoreTrace.tla failed (rc=%s)\n%s" % (res.rc, res.error_excerpt(40)))
+    for m in re.finditer(r'^"STORE\|(\d+)\|"$', res.out, re.M):
+        x = trans[int(m.group(1)) - 1]
+        rep.violation("store:%s:%s" % (x["op"]["op"], x["ret"]), "InputStore %s from %s gives %s / %s, not what StoreTrace!Step gives" % (x["op"], x["pre"], x["post"], x["ret"]),
+                      {"kind": "store-transition", "transition": x})
+    cov["store_transitions_validated"] = len(trans)
